@@ -52,7 +52,7 @@ func VerifC17_PassNeverOvercommitsReservations() {
 
 	w := pwNew(&opopts.Options{FeatureGates: opopts.FeatureGates{ReservedCapacity: true}})
 	w.addPool("pool-1", 0)
-	od := []pwOffer{{"zone-1", v1.CapacityTypeOnDemand, 1, true}}
+	od := []pwOffer{{zone: "zone-1", ct: v1.CapacityTypeOnDemand, price: 1, available: true}}
 	a := w.addType("it-a", resource.MustParse("8"), od)
 	b := w.addType("it-b", resource.MustParse("8"), od)
 	capacity := map[string]int{"r-1": verifrt.Choice("capacity.r-1", 0, 3), "r-2": verifrt.Choice("capacity.r-2", 0, 2)}
